@@ -20,6 +20,7 @@ Structural clauses decided:
 """
 from ..engine import cfg as C
 from ..engine import decision as D
+from ..engine import guards as GV
 from ..engine import q as Q
 from ..engine import tables as TB
 from ..engine import terms as T
@@ -367,11 +368,10 @@ def rule_R3_R4_R5(ctx):
         out = []
         if not p:
             return out
-        for (db, dj, full) in S.defs().get(p["l"], []):
-            term = S.def_term(p["l"], db, dj, 0)
+        for (term, conds, site) in GV.guarded_values(P, b, S, p, i, j):
+            term = T.strip(term)
             if term[0] == "agg" and term[3] == "Some" or (term[0] not in ("agg",) and term[0] != "const"):
-                conds = Q.canon_conds(P, T.dom_conds(b, S, db))
-                out.append((db, term, conds))
+                out.append((site[0], term, conds))
         return out
 
     def role_atoms(conds):
@@ -648,13 +648,31 @@ def rule_R7(ctx):
             seen.add(("Value", i))
             continue
         if var == "Mod":
-            arr = [x for x in T.walk(t) if x[0] == "agg" and x[1] == "array"]
-            vals = [T.fold_int(e) for e in arr[0][4]] if arr else []
+            arr = [a for a in (T.int_array(x) for x in T.walk(t) if x[0] in ("agg", "const")) if a]
+            vals = arr[0] if arr else []
             rev = T.has_call(t, "::rev")
-            remz = any(c[0] == "cmp" and c[1] == "Eq" and c[4] is True and T.has_call(c[2], "checked_rem") for c in conds)
+
+            def _some_zero(x):
+                x = T.strip(x)
+                while x[0] in ("ref", "deref"):
+                    x = T.strip(x[2] if x[0] == "ref" else x[1])
+                if x[0] == "agg" and x[3] == "Some" and len(x[4]) == 1:
+                    return T.fold_int(x[4][0]) == 0
+                # Option<u16> constant: tag 1, payload 0 (layout of the pinned toolchain: u16 tag, u16 payload)
+                return x[0] == "const" and isinstance(x[1], (bytes, bytearray)) and "Option<u16>" in (x[3] or "") and bytes(x[1]) == b"\x01\x00\x00\x00"
+
+            def _remtest(c):
+                return c[0] == "cmp" and c[1] == "Eq" and c[4] is True and T.has_call(c[2], "checked_rem") and \
+                    _some_zero(c[3]) and any(x[0] == "param" and x[2] == "window_size" for x in T.walk(c[2]))
+            remz = any(_remtest(c) for c in conds)
             for c in conds:
-                if c[0] == "cmp" and c[1] == "Eq" and c[4] is True and T.has_call(c[2], "checked_rem") and c[5] is not None:
+                if _remtest(c) and c[5] is not None:
                     test_blocks.append(("Mod", c[5]))
+            # the same test written as the predicate of an iterator search (`.find(|m| w.checked_rem(m) == Some(0))`)
+            for (call, cs) in Q.predicate_conds(P, t):
+                if call[1].endswith(("::find", "::rfind")) and any(_remtest(c) for c in cs):
+                    remz = True
+                    test_blocks.append(("Mod", call[3]))
             ctx.check(vals == spec["modulos"] and rev and remz, "R7", "window:Mod", "%%m for the largest m in %s dividing the window" % vals,
                       "modulo rendering: values %s, largest-first=%s, remainder test=%s (expected %s, largest first, remainder zero)" % (vals, rev, remz, spec["modulos"]), ctx.loc(b, i))
             seen.add(("Mod", 0))
